@@ -282,8 +282,9 @@ func leafFmt(seed int64, tier string, outDir string, rep *Report) error {
 	}
 
 	// ---- the same values in every instant / duration property of every struct type: whole outputs, literally
-	hdrO := "From AP.Model Require Import Prelude Vocab Json JsonLeaf JsonTables JsonEnc.\nFrom AP.Gen Require Import JsonW.\n" +
+	hdrO := "From AP.Model Require Import Prelude Vocab Layout Json JsonLeaf JsonTables JsonEnc EncTyped.\nFrom AP.Gen Require Import Layout JsonW.\n" +
 		"Definition ok (c : item * bytes) : bool := let '(i, o) := c in\n" +
+		"  well_typed layout_of layout_endpoints i &&\n" +
 		"  match marshal_json jw_tables i with Some b => bytes_eqb b o | None => false end.\n"
 	cwO := NewCaseWriter(outDir, "Cases_C02leafobj", hdrO, "item * bytes")
 	cwO.SetChunk(50, 1)
